@@ -41,6 +41,8 @@ func checkC10(r *core.Run) {
 	r.Rule("G-cancel: ShardRelease/RemoveShard/CancelOrder in sao Cancel <= order.Creator == msg.Creator OR order.Creator in TxAddresses of the ORDER's provider (not of a provider the message merely names)")
 	r.Rule("G-ready / G-migrate / G-payer: same scheme, see DESIGN A.2")
 	r.Rule("G-node-*: in node Create/Reset/AddVstorage/RemoveVstorage/ClaimReward every keyed record access and bank counter-party is msg.Creator / GetSigners()[0], and GetSigners returns the address of Creator")
+	r.Rule("G-renew (shared with C09): every effect of Renew, including the charge to the model owner's payment address, is dominated by 'the verified signer is the model OWNER' (not merely a read-write grantee)")
+	ruleRenewOwner(r)
 	r.Rule("T-loopvar: in the sao and did message handlers no address of a per-loop variable is stored into a slice/field inside its loop (revoking several accounts in one MsgUpdate must unbind each of them, since CreatorIsBoundToDid reads those bindings)")
 	ruleLoopVarAddr(r, "T-loopvar", "sao/keeper.msgServer.", "did/keeper.msgServer.")
 	r.Assume(aDeps)
